@@ -6,6 +6,7 @@ import PyodaProofs.C04Seq
 import PyodaProofs.C04TailEnd
 import PyodaProofs.C04Zone
 import PyodaProofs.C04Walk
+import PyodaProofs.GenAgreeC05
 
 #print axioms Pyoda.C04.search_spec
 #print axioms Pyoda.C04.precalc_get_contains
@@ -54,3 +55,25 @@ import PyodaProofs.C04Walk
 #print axioms Pyoda.C04.fixed_zoneSeq
 #print axioms Pyoda.C04.adjacent_differ
 #print axioms Pyoda.C04.adjacent_differ_notail
+#print axioms Pyoda.GenAgree.C05.gen_ZoneInterval_rawStart_eq
+#print axioms Pyoda.GenAgree.C05.gen_ZoneInterval_rawEnd_eq
+#print axioms Pyoda.GenAgree.C05.gen_ZoneInterval_wallOffset_eq
+#print axioms Pyoda.GenAgree.C05.gen_ZoneInterval_savings_eq
+#print axioms Pyoda.GenAgree.C05.gen_ZoneInterval_hasStart_eq
+#print axioms Pyoda.GenAgree.C05.gen_ZoneInterval_hasEnd_eq
+#print axioms Pyoda.GenAgree.C05.gen_ZoneInterval_start_eq
+#print axioms Pyoda.GenAgree.C05.gen_ZoneInterval_end_eq
+#print axioms Pyoda.GenAgree.C05.gen_ZoneInterval_containsInstant_eq
+#print axioms Pyoda.GenAgree.C05.gen_ZoneInterval_containsLocal_eq
+#print axioms Pyoda.GenAgree.C05.gen_ZoneLocalMapping_earlyInterval_eq
+#print axioms Pyoda.GenAgree.C05.gen_ZoneLocalMapping_lateInterval_eq
+#print axioms Pyoda.GenAgree.C05.gen_Zone_getEarlierMatchingInterval_eq
+#print axioms Pyoda.GenAgree.C05.gen_Zone_getLaterMatchingInterval_eq
+#print axioms Pyoda.GenAgree.C05.gen_Zone_getIntervalBeforeGap_eq
+#print axioms Pyoda.GenAgree.C05.gen_Zone_getIntervalAfterGap_eq
+#print axioms Pyoda.GenAgree.C05.gen_Zone_mapLocal_eq
+#print axioms Pyoda.GenAgree.C05.gen_Precalc_loop_rel
+#print axioms Pyoda.GenAgree.C05.gen_Precalc_getZoneIntervalNoTail_eq
+#print axioms Pyoda.GenAgree.C05.gen_Precalc_getZoneIntervalNoTail_loop1_eq
+#print axioms Pyoda.GenAgree.C05.gen_Precalc_getZoneIntervalTail_loop1_eq
+#print axioms Pyoda.GenAgree.C05.gen_Precalc_getZoneIntervalTail_eq
